@@ -46,12 +46,14 @@ class Program:
         for short in crates:
             self.fns += parse_mir(open(self.paths[short]).read(), short)
         self.by_short = {}
+        self.by_name = {}
+        for f in self.fns: self.by_name.setdefault(f.name, f)
         self.closures = {}
         for f in self.fns:
             if '{closure#' in f.name or f.name.endswith('}') and 'closure' in f.name:
                 if f.params:
                     m = re.search(r'\{closure@[^}]*\}', f.params[0])
-                    if m: self.closures.setdefault(m.group(0), f)
+                    if m: self.closures.setdefault(m.group(0), []).append(f)
                 continue
             self.by_short.setdefault(f.short, []).append(f)
         self._hdr = {}
@@ -79,8 +81,28 @@ class Program:
             raise Unsupported(f'method lookup {selfty}::{method} (trait {trait}): {len(c)} candidates {[x.name for x in c[:5]]}')
         return c[0]
 
-    def closure_fn(self, key):
-        return self.closures.get(key)
+    def promoted(self, fn, n):
+        base = fn.name
+        # closures share their parent's promoteds? no: each body has its own; names are `<body name>::promoted[n]`
+        return self.by_name.get(f'{base}::promoted[{n}]')
+
+    def closure_fn(self, key, parent=None, nargs=None, names=None):
+        c = self.closures.get(key, [])
+        if len(c) > 1 and parent:
+            c2 = [f for f in c if f.name.startswith(parent + '::{closure#') and '::{closure#' not in f.name[len(parent) + 2 + len('{closure#'):]]
+            if c2: c = c2
+        if len(c) > 1 and nargs is not None:
+            c2 = [f for f in c if len(f.params) == nargs + 1]
+            if c2: c = c2
+        if len(c) > 1 and names is not None:
+            # captured variable names appear as `debug <name> => ...` lines of the closure body
+            def caps(f):
+                return set(re.findall(r'debug (\w+) => \(?\(?\*?_1', '\n'.join(f.text)))
+            c2 = [f for f in c if caps(f) == set(names)]
+            if c2: c = c2
+        if len(c) == 1: return c[0]
+        if not c: return None
+        raise Unsupported(f'ambiguous closure {key} (parent {parent}): {[f.name for f in c]}')
 
     def header(self, f):
         """(trait head or None, self type head) for an impl method; (None, None) for free fns"""
@@ -126,7 +148,7 @@ class Program:
                         if vt: want = [vt]
                     c2 = [f for f in c if self.src.trait_args.get(f.impl_span, []) == want]
                     if len(c2) == 1: return c2[0]
-                    raise Unsupported(f'ambiguous trait method {callee}: {[x.name for x in c]}')
+                    raise Unsupported(f'ambiguous trait method {callee} (args {[repr(a)[:60] for a in args]}): {len(c)} candidates {[x.name for x in c[:3]]}')
             # reference-forwarding impls (impl Trait for &T): try with '&'+head
             return None
         # inherent method or free function
@@ -178,7 +200,8 @@ class Program:
         if isinstance(v, Char): return 'char'
         if isinstance(v, Ref):
             t = st.deref(v)
-            if isinstance(t, StrV) and t.ty == 'str': return '&str'
+            if isinstance(t, StrV): return '&' + t.ty
+            if isinstance(t, Ref): return self._value_type(t, st)
             return None
         if isinstance(v, StrV): return v.ty
         if isinstance(v, Adt): return v.ty
